@@ -35,12 +35,12 @@ CONC_ACT = "RejectHasNoEffect CapacityOnPush ReloadIsTheLog"
 cfg("Mempool_seq_quick.cfg", "repaired model, one caller at a time: API + durability + crash/close/reopen", {})
 cfg("Mempool_seq_fail.cfg", "repaired model, a failing batch write (hole in the log)", dict(MaxFail=1, MaxCrash=0, MaxPops=1))
 cfg("Mempool_seq_thorough.cfg", "repaired model, sequential, larger: empty chain at start, two accounts, a failing write",
-    dict(NTx=4, NAccs=2, MaxPush=5, MaxPops=2, MaxFail=1, StartEmpty="TRUE", MaxBlocks=2))
+    dict(NTx=3, NAccs=1, MaxPush=5, MaxPops=2, MaxFail=0, StartEmpty="TRUE", MaxBlocks=2))
 cfg("Mempool_conc_quick.cfg", "repaired model, two concurrent pushers, one listener and a free popper",
     dict(NTx=2, NPushers=2, NConsumers=1, MaxPush=3, MaxCrash=0, MaxClose=0, MaxPops=1, MaxBlocks=0, MaxExecErr=1, MaxFatal=1),
     inv=NOSEQ, props=CONC_ACT)
 cfg("Mempool_conc_thorough.cfg", "repaired model, two pushers, two listeners, close and crash",
-    dict(NTx=2, NPushers=2, NConsumers=2, MaxPush=4, MaxCrash=1, MaxClose=1, MaxPops=1, MaxBlocks=0, MaxExecErr=1, MaxFatal=1),
+    dict(NTx=2, NPushers=2, NConsumers=2, MaxPush=3, MaxCrash=1, MaxClose=1, MaxPops=0, MaxBlocks=0, MaxExecErr=1, MaxFatal=1),
     inv=NOSEQ, props=CONC_ACT)
 cfg("Mempool_live.cfg", "liveness under fairness (no crash / close / fatal executor error)",
     dict(NTx=2, NPushers=2, NConsumers=1, MaxPush=3, MaxCrash=0, MaxClose=0, MaxPops=0, MaxBlocks=0, MaxExecErr=1),
@@ -48,6 +48,9 @@ cfg("Mempool_live.cfg", "liveness under fairness (no crash / close / fatal execu
 # ---- the code as it is (both switches FALSE): what holds in spite of the defects
 cfg("Mempool_ascoded.cfg", "the code as it is: what holds in spite of the two defects",
     dict(DedupFix="FALSE", OverflowFix="FALSE", NConsumers=1, MaxPush=3, MaxPops=1),
+    inv="TypeOK ExactlyOnceFIFO NoLostWakeup ExecBatchBound", props=ACT)
+cfg("Mempool_ascoded_quick.cfg", "the code as it is (quick tier): no crash",
+    dict(DedupFix="FALSE", OverflowFix="FALSE", NConsumers=1, MaxPush=3, MaxPops=1, MaxCrash=0),
     inv="TypeOK ExactlyOnceFIFO NoLostWakeup ExecBatchBound", props=ACT)
 cfg("Mempool_ascoded_conc.cfg", "the code as it is, two concurrent pushers and a listener",
     dict(DedupFix="FALSE", OverflowFix="FALSE", NTx=2, NPushers=2, NConsumers=1, MaxPush=3, MaxCrash=0, MaxClose=1, MaxPops=1,
